@@ -91,7 +91,7 @@ func (c *check) Init(tier string, seed int64) engine.Space {
 			"all units of a family (length, angle, resolution) behave alike inside multi-token values; every unit is tried alone",
 			"identifier positions that still validate with the nonsense identifier zzq are custom-identifier positions (case-sensitive by specification) and are not case-varied",
 			"values containing var() are compared on computed styles (part c), not on declaration lists",
-			"part c does not use the font-relative units ex/ch (font-size: 1ex, tab-size: 1ex ... overflow the stack on their own, var() or not); CSS-wide keywords are not routed through custom properties",
+			"part c computes styles with the harness's Ahem-only font configuration (ex/ch units resolve against Ahem); CSS-wide keywords are not routed through custom properties",
 		},
 		BudgetS:  map[bool]float64{false: 100, true: 900}[c.thorough],
 		CaseCPUs: 20,
